@@ -67,6 +67,7 @@ def run_unit(root, module, prop, tier, seed, rebaseline=False):
         rec["unit"] = unit.name
         rec["describe"] = unit.describe
         rec["trusted"] = list(unit.trusted)
+        rec["alarm_only_with"] = list(getattr(unit, "alarm_only_with", []) or [])
         cs = getattr(unit, "clause_scope", [])
         # list: fragments that are this unit's own clauses; dict: per property {"only": [...]} or {"except": [...]}
         rec["clause_scope"] = (cs.get(prop) or {}) if isinstance(cs, dict) else ({"only": list(cs)} if cs else {})
@@ -293,6 +294,9 @@ def classify_unit(rec, r, meta, base, changed, text):
         rec["status"] = "undecided"
         rec["reason"] = "resource limit exceeded (after retry)"
         return
+    # a function on which the solver gave up says nothing about the code: only the obligations it actually refuted are reported
+    failed = [x for x in failed if x["kind"] != "rlimit"]
+    rec["failed"] = failed
     if not base:
         rec["status"] = "undecided"
         rec["reason"] = ("obligation failed and no validated baseline is recorded for this unit (contracts/baseline.json): a unit is only "
@@ -302,6 +306,14 @@ def classify_unit(rec, r, meta, base, changed, text):
         rec["status"] = "undecided"
         rec["reason"] = "obligation failed although every extracted item is byte-identical to the validated baseline: solver instability, not the code"
         return
+    marks = list(rec.get("alarm_only_with") or [])
+    if marks:
+        if not any(mk in (text or "") for mk in marks):
+            rec["status"] = "undecided"
+            rec["reason"] = ("the extracted code no longer computes the function of its input recorded in the contract, but it walks no collection in an "
+                             "unspecified order (none of " + ", ".join(marks) + " occurs in the verified text): its output is still a function of "
+                             "the program — determinism is not refuted; the contract has to be re-stated for the new order")
+            return
     # proof-skeleton guard: loop invariants are keyed by loop ordinal; if a function's number of loops differs from the
     # validated baseline, its invariants no longer describe its loops and a failed proof says nothing about the property.
     hl = set(rec.get("hints_lost", []))
